@@ -66,9 +66,9 @@ pub fn replay(replay: &Value) -> Result<Vec<Violation>, String> {
         "C16" => c16::replay(replay)?,
         "C17" => c17::replay(replay)?,
         "C18" => c18::replay(&case_of(replay)?),
-        "C12" => c12::replay(replay)?,
+        "C12" | "C12-hist" => c12::replay(replay)?,
         "C13" => c13::replay(replay)?,
-        "C14" => c14::replay(replay)?,
+        "C14" | "C14-hist" => c14::replay(replay)?,
         "C15" => c15::replay(replay["input"].as_str().ok_or("input")?),
         "crash" => return Err("this replay records a crash of the whole exploration process; re-run the check to reproduce".into()),
         other => return Err(format!("unknown replay kind `{other}`")),
